@@ -26,6 +26,7 @@ pub struct FnNode {
     pub method_calls: Vec<String>, // method names called
     pub parent: Option<usize>,
     pub scope: Vec<String>,       // generic type parameters in scope
+    pub params: Vec<String>,      // names of the non-receiver parameters (ident patterns; "" otherwise)
 }
 
 pub struct StaticItem {
@@ -141,6 +142,41 @@ impl<'a> Builder<'a> {
     }
 }
 
+fn param_names(sig: &Signature) -> Vec<String> {
+    sig.inputs
+        .iter()
+        .filter_map(|a| match a {
+            FnArg::Typed(t) => Some(match &*t.pat {
+                Pat::Ident(i) => i.ident.to_string(),
+                _ => String::new(),
+            }),
+            FnArg::Receiver(_) => None,
+        })
+        .collect()
+}
+
+/// Where a function *value* (a path naming a crate fn, not in call position) goes.
+#[derive(Clone, Debug)]
+enum Sink {
+    /// initialiser of struct-literal field `f`: a later `(x.f)(..)` may call it
+    Field(String),
+    /// argument `k` of a call of one of `callees`: followed into the callee's parameter
+    Arg { callees: Vec<usize>, k: usize },
+    /// anything else: may be called by any indirect call
+    Other,
+}
+
+fn strip_expr(mut e: &Expr) -> &Expr {
+    loop {
+        match e {
+            Expr::Paren(p) => e = &p.expr,
+            Expr::Group(p) => e = &p.expr,
+            Expr::Cast(c) => e = &c.expr,
+            _ => return e,
+        }
+    }
+}
+
 fn recv_of(sig: &Signature) -> (&'static str, bool) {
     match sig.inputs.first() {
         Some(FnArg::Receiver(r)) => {
@@ -194,10 +230,21 @@ struct BodyV<'b, 'a> {
     in_path_call: bool,
     prim: &'b mut BTreeSet<usize>,
     unresolved: &'b mut Vec<String>,
+    /// function values met: (function, targets, where the value goes)
+    fn_values: &'b mut Vec<(usize, Vec<usize>, Sink)>,
+    /// (function, parameter index, field): the parameter initialises struct-literal field `field`
+    param_field: &'b mut Vec<(usize, usize, String)>,
+    /// (function, parameter index j, callees, k): parameter j is passed on as argument k
+    param_flow: &'b mut Vec<(usize, usize, Vec<usize>, usize)>,
+    capture: Option<Vec<usize>>,
 }
 
 impl<'b, 'a> BodyV<'b, 'a> {
     fn edge(&mut self, to: usize) {
+        if let Some(c) = &mut self.capture {
+            c.push(to);
+            return;
+        }
         self.edges.push((self.cur, to));
         if self.in_path_call {
             self.path_edges.push((self.cur, to));
@@ -205,6 +252,33 @@ impl<'b, 'a> BodyV<'b, 'a> {
     }
     fn nodes_named(&self, f: &str) -> Vec<usize> {
         self.b.by_name.get(f).cloned().unwrap_or_default()
+    }
+    /// Index of the current function's parameter named by a single-identifier path.
+    fn param_index(&self, e: &Expr) -> Option<usize> {
+        match strip_expr(e) {
+            Expr::Path(p) if p.qself.is_none() && p.path.segments.len() == 1 => {
+                let id = p.path.segments[0].ident.to_string();
+                self.b.fns[self.cur].params.iter().position(|x| *x == id)
+            }
+            _ => None,
+        }
+    }
+    /// The crate functions a path in value position may denote (empty for variables, constants, …).
+    fn value_targets(&mut self, e: &Expr) -> Vec<usize> {
+        match strip_expr(e) {
+            Expr::Path(p) => {
+                let saved = self.capture.take();
+                self.capture = Some(vec![]);
+                self.resolve_call_path(&p.path, p.qself.is_some());
+                let mut t = self.capture.take().unwrap_or_default();
+                self.capture = saved;
+                t.retain(|n| !self.b.fns[*n].name.starts_with("indirect:"));
+                t.sort();
+                t.dedup();
+                t
+            }
+            _ => vec![],
+        }
     }
     fn resolve_call_path(&mut self, p: &Path, qself: bool) {
         let segs = path_segs(p);
@@ -375,19 +449,37 @@ impl<'ast, 'b, 'a> Visit<'ast> for BodyV<'b, 'a> {
         visit::visit_expr_method_call(self, m);
     }
     fn visit_expr_call(&mut self, c: &'ast ExprCall) {
-        let mut f: &Expr = &c.func;
-        loop {
-            match f {
-                Expr::Paren(p) => f = &p.expr,
-                Expr::Group(p) => f = &p.expr,
-                _ => break,
-            }
-        }
+        let f: &Expr = strip_expr(&c.func);
         match f {
             Expr::Path(p) => {
-                self.in_path_call = true;
+                // callees (captured, then added as ordinary path edges)
+                let saved = self.capture.take();
+                self.capture = Some(vec![]);
                 self.resolve_call_path(&p.path, p.qself.is_some());
+                let mut callees = self.capture.take().unwrap_or_default();
+                self.capture = saved;
+                callees.sort();
+                callees.dedup();
+                self.in_path_call = true;
+                for n in &callees {
+                    self.edge(*n);
+                }
                 self.in_path_call = false;
+                for (k, a) in c.args.iter().enumerate() {
+                    if matches!(strip_expr(a), Expr::Path(_)) {
+                        if let Some(j) = self.param_index(a) {
+                            self.param_flow.push((self.cur, j, callees.clone(), k));
+                            continue;
+                        }
+                        let t = self.value_targets(a);
+                        if !t.is_empty() {
+                            self.fn_values.push((self.cur, t, Sink::Arg { callees: callees.clone(), k }));
+                        }
+                    } else {
+                        self.visit_expr(a);
+                    }
+                }
+                return;
             }
             Expr::Field(fe) => {
                 let field = toks(&fe.member);
@@ -397,6 +489,22 @@ impl<'ast, 'b, 'a> Visit<'ast> for BodyV<'b, 'a> {
             _ => {}
         }
         visit::visit_expr_call(self, c);
+    }
+    /// A path in any other value position (`iter.map(Self::f)`, `let g = helper;`): if it names a
+    /// crate fn it may be called here, or later through any indirect call.
+    fn visit_expr_path(&mut self, p: &'ast ExprPath) {
+        if p.qself.is_none() && p.path.segments.len() == 1 {
+            let id = p.path.segments[0].ident.to_string();
+            // a local binding / parameter / `self`: not a function item (locals shadow items)
+            if id == "self" || id == "Self" || self.b.fns[self.cur].params.contains(&id) || !self.b.c.defs.get(&id).map(|v| v.iter().any(|(_, k)| *k == "fn")).unwrap_or(false) {
+                return;
+            }
+        }
+        let e = Expr::Path(p.clone());
+        let t = self.value_targets(&e);
+        if !t.is_empty() {
+            self.fn_values.push((self.cur, t, Sink::Other));
+        }
     }
     fn visit_expr_struct(&mut self, s: &'ast ExprStruct) {
         let name = last_seg(&s.path);
@@ -418,6 +526,16 @@ impl<'ast, 'b, 'a> Visit<'ast> for BodyV<'b, 'a> {
                 self.visit_expr(&cl.body);
                 self.cur = saved;
                 self.b.fns[n].self_head = String::new();
+            } else if matches!(strip_expr(&fv.expr), Expr::Path(_)) {
+                let field = toks(&fv.member);
+                if let Some(j) = self.param_index(&fv.expr) {
+                    self.param_field.push((self.cur, j, field));
+                } else {
+                    let t = self.value_targets(&fv.expr);
+                    if !t.is_empty() {
+                        self.fn_values.push((self.cur, t, Sink::Field(field)));
+                    }
+                }
             } else {
                 self.visit_expr(&fv.expr);
             }
@@ -479,6 +597,7 @@ pub fn extract(c: &Crate, items: &Items, raw: &Raw) -> Graph {
                     has_self,
                     recv,
                     is_unsafe: f.sig.unsafety.is_some(),
+                    params: param_names(&f.sig),
                     parent: Some(parent),
                     scope,
                     sig_owned: so,
@@ -522,6 +641,7 @@ pub fn extract(c: &Crate, items: &Items, raw: &Raw) -> Graph {
                     recv,
                     client_callable: client,
                     is_unsafe: f.sig.unsafety.is_some(),
+                    params: param_names(&f.sig),
                     is_drop_impl: trait_name == "Drop" && f.sig.ident == "drop",
                     is_trait_method: !trait_name.is_empty(),
                     ret_owned: ro,
@@ -552,6 +672,7 @@ pub fn extract(c: &Crate, items: &Items, raw: &Raw) -> Graph {
                         recv,
                         client_callable: matches!(tr.vis, Visibility::Public(_)),
                         is_unsafe: f.sig.unsafety.is_some(),
+                    params: param_names(&f.sig),
                         is_trait_method: true,
                         scope,
                         ..Default::default()
@@ -577,6 +698,7 @@ pub fn extract(c: &Crate, items: &Items, raw: &Raw) -> Graph {
                 recv,
                 client_callable: matches!(f.vis, Visibility::Public(_)),
                 is_unsafe: f.sig.unsafety.is_some(),
+                    params: param_names(&f.sig),
                 scope: type_params(&f.sig.generics),
                 ret_owned: ro,
                 sig_owned: so,
@@ -624,15 +746,87 @@ pub fn extract(c: &Crate, items: &Items, raw: &Raw) -> Graph {
     let mut prim: BTreeSet<usize> = BTreeSet::new();
     let mut unresolved = vec![];
     let n0 = b.fns.len();
+    let mut fn_values: Vec<(usize, Vec<usize>, Sink)> = vec![];
+    let mut param_field: Vec<(usize, usize, String)> = vec![];
+    let mut param_flow: Vec<(usize, usize, Vec<usize>, usize)> = vec![];
     for id in 0..n0 {
         if let Some(body) = b.bodies[id].clone() {
-            let mut v = BodyV { b: &mut b, cur: id, edges: &mut edges, path_edges: &mut path_edges, in_path_call: false, prim: &mut prim, unresolved: &mut unresolved };
+            let mut v = BodyV { b: &mut b, cur: id, edges: &mut edges, path_edges: &mut path_edges, in_path_call: false, prim: &mut prim, unresolved: &mut unresolved,
+                                fn_values: &mut fn_values, param_field: &mut param_field, param_flow: &mut param_flow, capture: None };
             v.visit_block(&body);
         }
     }
     for (id, e) in &const_inits {
-        let mut v = BodyV { b: &mut b, cur: *id, edges: &mut edges, path_edges: &mut path_edges, in_path_call: false, prim: &mut prim, unresolved: &mut unresolved };
+        let mut v = BodyV { b: &mut b, cur: *id, edges: &mut edges, path_edges: &mut path_edges, in_path_call: false, prim: &mut prim, unresolved: &mut unresolved,
+                            fn_values: &mut fn_values, param_field: &mut param_field, param_flow: &mut param_flow, capture: None };
         v.visit_expr(e);
+    }
+    // Function values.  A crate fn named in value position is a possible target of the indirect call
+    // through field `f` when it initialises `f` in a struct literal — directly, or as an argument that
+    // a constructor function stores into `f` (followed through parameters to a fixpoint).  A value
+    // whose destination is not understood may be called where it is mentioned and by *every* indirect call.
+    {
+        let mut pf: BTreeMap<(usize, usize), BTreeSet<String>> = BTreeMap::new();
+        for (f, k, field) in &param_field {
+            pf.entry((*f, *k)).or_default().insert(field.clone());
+        }
+        loop {
+            let mut changed = false;
+            for (cur, j, callees, k) in &param_flow {
+                let mut add: BTreeSet<String> = BTreeSet::new();
+                for c in callees {
+                    if let Some(s) = pf.get(&(*c, *k)) {
+                        add.extend(s.iter().cloned());
+                    }
+                }
+                let e = pf.entry((*cur, *j)).or_default();
+                for a in add {
+                    changed |= e.insert(a);
+                }
+            }
+            if !changed {
+                break;
+            }
+        }
+        let mut field_targets: BTreeMap<String, BTreeSet<usize>> = BTreeMap::new();
+        let mut loose: BTreeSet<usize> = BTreeSet::new();
+        for (cur, targets, sink) in &fn_values {
+            let fields: Vec<String> = match sink {
+                Sink::Field(f) => vec![f.clone()],
+                Sink::Arg { callees, k } => {
+                    let mut v: BTreeSet<String> = BTreeSet::new();
+                    for c in callees {
+                        if let Some(s) = pf.get(&(*c, *k)) {
+                            v.extend(s.iter().cloned());
+                        }
+                    }
+                    v.into_iter().collect()
+                }
+                Sink::Other => vec![],
+            };
+            if fields.is_empty() {
+                for t in targets {
+                    edges.push((*cur, *t));
+                    loose.insert(*t);
+                }
+            } else {
+                for f in fields {
+                    field_targets.entry(f).or_default().extend(targets.iter().copied());
+                }
+            }
+        }
+        for (f, ts) in &field_targets {
+            let n = b.indirect_node(f);
+            for t in ts {
+                edges.push((n, *t));
+            }
+        }
+        let indirect: Vec<usize> = b.indirect.values().copied().collect();
+        for n in indirect {
+            for t in &loose {
+                edges.push((n, *t));
+            }
+        }
     }
     // implicit Drop edges
     let mut drop_of: BTreeMap<String, usize> = BTreeMap::new();
